@@ -86,6 +86,9 @@ def run(repo: Repo, rep: Report) -> None:
                    why or "no counter, visited-set guard, link removal or guarded validator: serialisation never ends on a cyclic rdf:rest chain", node=loop)
 
     escape_table_rules(repo, rep, "C03.b-escape-tables-agree")
+    from checks.c05 import xmlns_agreement
+
+    xmlns_agreement(repo, rep, "C03.c-rdfxml-prefixes-declared-as-used")
 
 
 def escape_table_rules(repo: Repo, rep: Report, RULE: str) -> None:
